@@ -34,7 +34,7 @@ CHECKS = {
    note="trusted: reference machine and reference screen decoder; device writes outside segments are out of scope by the statement; pygame is not installed, PcIO is assembled from its real headless components"),
  "C10": dict(engine="storagesim", category="fault_enumeration", design="5.4", timeout=(300, 2400),
    technique="deterministic simulation with fault injection on a simulated disk: the real writer's byte stream is torn at every byte (crash / full disk / kill), blocks are lost, every header/table field is corrupted from a value table, payload bits are flipped; the real reader opens every variant",
-   text="crash points are enumerated completely per file (every strict prefix up to 4 KiB), every single-field corruption from a value table, seeded block loss and payload damage, stale tails after the file (1 byte..1.1 MB) and a time-scaling probe (n vs 2n filler bytes); files (writer call sequences and real assembler outputs) are sampled",
+   text="crash points are enumerated completely per file (every strict prefix up to 4 KiB), every single-field corruption from a value table, seeded block loss and payload damage, stale tails after the file (1 byte..1.1 MB) and a CPU-time scaling probe (n vs 4n filler bytes) and big compressible payloads (>1 MiB decoded); files (writer call sequences and real assembler outputs) are sampled",
    note="trusted: the independent struct-level parser in checks/c10.py decides the named inconsistencies; a torn write leaves a prefix; undetectable (mutually consistent) damage is judged for totality only; the prefix enumeration reads from the in-memory disk, every other variant from a real file"),
  "C13": dict(engine="historysim", category="exploration", design="5.5", timeout=(400, 2700),
    technique="deterministic simulation of call histories with fault injection: seeded histories of assemble calls in one process (fresh fork per history) with failing inputs, interrupts made pending at a chosen bytecode instruction, I/O errors at the k-th file operation and stl mtime jumps; every successful call is compared byte-for-byte with a fresh interpreter (other hash seed, other directory)",
